@@ -2694,6 +2694,10 @@ func (d *Data) ServeHTTP(uuid dvid.UUID, ctx *datastore.VersionedCtx, w http.Res
 		fmt.Fprintln(w, jsonStr)
 
 	case "resolution":
+		if action != "post" {
+			server.BadRequest(w, r, "resolution endpoint only supports POST HTTP verb")
+			return
+		}
 		jsonBytes, err := ioutil.ReadAll(r.Body)
 		if err != nil {
 			server.BadRequest(w, r, err)
@@ -2929,6 +2933,9 @@ func (d *Data) handleBlocks(ctx *datastore.VersionedCtx, w http.ResponseWriter, 
 			server.BadRequest(w, r, err)
 		}
 		timedLog.Infof("HTTP GET blocks at size %s, offset %s (%s)", parts[4], parts[5], r.URL)
+	} else if strings.ToLower(r.Method) != "post" {
+		server.BadRequest(w, r, "only GET or POST action allowed for /blocks endpoint")
+		return
 	} else {
 		if err := d.ReceiveBlocks(ctx, r.Body, scale, downscale, compression); err != nil {
 			server.BadRequest(w, r, err)
@@ -3098,6 +3105,9 @@ func (d *Data) handleDataRequest(ctx *datastore.VersionedCtx, w http.ResponseWri
 				server.BadRequest(w, r, err)
 				return
 			}
+		} else if strings.ToLower(r.Method) != "post" {
+			server.BadRequest(w, r, "only GET or POST action allowed for 3d /%s endpoint", parts[3])
+			return
 		} else {
 			if isotropic {
 				server.BadRequest(w, r, "can only POST 'raw' not 'isotropic' images")
